@@ -15,16 +15,20 @@ out = ["# Seeded property-breaking changes", "",
 "| change | needs, in order to manifest | confirmed (demo fails with / passes without; suite with change) | caught by | violation class | first try? |",
 "|---|---|---|---|---|---|"]
 missed = 0
+not_caught = 0
 for m in rows:
-    first = "yes" if not m.get("detection", "").startswith("MISSED") else "no - check strengthened"
-    if first != "yes":
+    det = m.get("detection", "")
+    first = "NOT CAUGHT" if det.startswith("NOT CAUGHT") else ("yes" if not det.startswith("MISSED") else "no - check strengthened")
+    if first == "NOT CAUGHT":
+        not_caught += 1
+    elif first != "yes":
         missed += 1
     conf = f"{'yes' if m.get('confirmed') else 'NO'}; suite: {m.get('suite_with_change', 'not run')}"
     out.append(f"| {m.get('id')} | {m.get('needs_to_manifest','')} | {conf} | {m.get('detected_by_check','')} | `{m.get('violation_class','')}` | {first} |")
-out += ["", f"{len(rows)} changes, {len(rows) - missed} caught by the check as it stood, {missed} caught only after the check was strengthened (what was added is in each `meta.json` under `detection` and in DESIGN.md 9.5), 0 still missed.", ""]
+out += ["", f"{len(rows)} changes, {len(rows) - missed - not_caught} caught by the check as it stood, {missed} only after the check was strengthened (what was added is in each `meta.json` under `detection` and in DESIGN.md 9.5), {not_caught} not caught (reason in the last column's entry below).", ""]
 out += ["## What the misses taught", ""]
 for m in rows:
-    if m.get("detection", "").startswith("MISSED"):
+    if m.get("detection", "").startswith("MISSED") or m.get("detection", "").startswith("NOT CAUGHT"):
         out.append(f"* **{m['id']}** - {m['detection']}")
 open("/verif/seeded/README.md", "w").write("\n".join(out) + "\n")
 print(len(rows), "rows,", missed, "needed strengthening")
